@@ -2,6 +2,8 @@
 // through two independent object graphs; under CBMC every fresh allocation, uninitialised local and LLVM undef is an
 // arbitrary value, so an output bit that depends on one of them can differ between the runs and the solver finds it.
 // Natively (replay) the two runs use different heap fill patterns (vp_set_fill).
+#include <asam_cmp/analog_payload.h>
+#include <asam_cmp/can_fd_payload.h>
 #include <asam_cmp/capture_module_payload.h>
 #include <asam_cmp/decoder.h>
 #include <asam_cmp/interface_payload.h>
@@ -194,6 +196,9 @@ VP_HARNESS(h_c20_reassembly)
 #ifndef BV
 #define BV 1
 #endif
+#ifndef BD
+#define BD 0   // > 0: also the data-block builders (CAN, CAN-FD, LIN, Ethernet, analog) with BD data bytes
+#endif
 VP_HARNESS(h_c20_build)
 {
     static char str[4][8];
@@ -229,6 +234,38 @@ VP_HARNESS(h_c20_build)
         ip[run]->setInterfaceId(static_cast<uint32_t>(up));
         ip[run]->setData(ids, BS, vend, BV);
     }
+#if BD > 0
+    // data-block builders: the caller's BD bytes live in an exact-size heap object per run (what lies behind them is not an
+    // input and must neither be read nor reach the payload)
+    static uint8_t dat[72];
+    vp_bytes(dat, BD);
+    Payload* db[2][5];
+    for (int run = 0; run < 2; ++run)
+    {
+        vp_set_fill(run ? 0x55 : 0xAA);
+        uint8_t* hd = static_cast<uint8_t*>(operator new(BD));
+        for (unsigned i = 0; i < BD; ++i)
+            hd[i] = dat[i];
+        CanPayload* c1 = new CanPayload;
+        c1->setData(hd, BD);
+        CanFdPayload* c2 = new CanFdPayload;
+        c2->setData(hd, BD);
+        LinPayload* c3 = new LinPayload;
+        c3->setData(hd, BD);
+        EthernetPayload* c4 = new EthernetPayload;
+        c4->setData(hd, BD);
+        AnalogPayload* c5 = new AnalogPayload;
+        c5->setData(hd, BD);
+        db[run][0] = c1; db[run][1] = c2; db[run][2] = c3; db[run][3] = c4; db[run][4] = c5;
+    }
+    for (int k = 0; k < 5; ++k)
+    {
+        vp_assert(db[0][k]->getLength() == db[1][k]->getLength(), "C20: built payload lengths are determined by the inputs");
+        for (unsigned i = 0; i < 96; ++i)
+            if (i < db[0][k]->getLength() && i < db[1][k]->getLength())
+                vp_assert(db[0][k]->getRawPayload()[i] == db[1][k]->getRawPayload()[i], "C20: every byte of a built data payload is determined by the inputs");
+    }
+#endif
     vp_assert(cm[0]->getLength() == cm[1]->getLength() && ip[0]->getLength() == ip[1]->getLength(), "C20: built payload lengths are determined by the inputs");
     for (unsigned i = 0; i < 96; ++i)
     {
